@@ -162,6 +162,29 @@ POST_AUTH_FAILURES = ("own-", "own!", "rst-", "rst!")
 DROPS = ("own!", "rst!")
 
 
+def connections_alive(prefix):
+    """(first, second) control connection up?  A drop (own! / rst!) hits the connection on which the
+    command is outstanding: TAKEOWNERSHIP on the first connection that got through, RESETCONF on the
+    retried one once there is one (the first never got that far, or the rst atom would be used up)."""
+    seen1 = seen2 = live1 = live2 = False
+    for a in prefix:
+        if a == "cok":
+            seen1 = live1 = True
+        elif a == "cok2":
+            seen2 = live2 = True
+        elif a == "own!":
+            if seen1:
+                live1 = False
+            else:
+                live2 = False
+        elif a == "rst!":
+            if seen2:
+                live2 = False
+            else:
+                live1 = False
+    return live1, live2
+
+
 def allowed(prefix, atom):
     """may `atom` follow `prefix` in the model of a launched Tor?"""
     g = GROUP_OF[atom]
@@ -169,8 +192,8 @@ def allowed(prefix, atom):
         return False
     s = set(prefix)
     exited = any(a in s for a in EXITS)
-    live1 = "cok" in s and not any(a in s for a in DROPS)        # first connection made and still up
-    connected = live1 or "cok2" in s
+    live1, live2 = connections_alive(prefix)
+    connected = live1 or live2
     retry_open = "lst2" in s and any(a in s and prefix.index(a) < prefix.index("lst2")
                                      for a in ("cfail",) + POST_AUTH_FAILURES)
     if exited:
@@ -191,15 +214,15 @@ def allowed(prefix, atom):
     if g in ("plo", "p100", "stl"):
         return connected
     # the ownership commands are held on the first connection that gets as far as sending them
-    on_conn = live1 if "cok" in s else "cok2" in s
+    on_conn = live1 if "cok" in s else live2
     if g == "own":
         # TAKEOWNERSHIP precedes RESETCONF: once RESETCONF was answered, TAKEOWNERSHIP is not held any more
         return on_conn and not any(GROUP_OF[a] == "rst" for a in prefix)
     if g == "rst":
         if "cok" in s and "cok2" in s:
-            return True               # a retried connection sends both commands (again)
+            return live2              # a retried connection sends both commands (again)
         if "cok2" in s:               # the retry is the only connection that got through
-            return "own-" not in s and "own!" not in s
+            return live2 and "own-" not in s
         return live1 and "own-" not in s
     return False
 
@@ -904,7 +927,8 @@ class Run(object):
                         self.V("launch-success-after-timeout", ocls, {"snapshot": snap, "atom": atom})
                     if snap["t100"] is not None and not snap["own_written"]:
                         # class: which connection reported 100 % without having been asked for ownership
-                        cls = ocls + ("/retried-connection" if snap["t100_connection"] else "")
+                        cls = ocls + ("/retried-connection" if snap["t100_connection"] else "") + (
+                            "/dialogue-command-held" if self.case.get("stall") is not None else "")
                         self.V("launch-success-without-takeownership", cls,
                                {"snapshot": snap,
                                 "commands_per_connection": [list(l.tor.lines)[-5:] for l in self.links]})
